@@ -98,7 +98,8 @@ CHECKS = {
                 technique="exhaustive enumeration of every constant and declaration of 7 binding interfaces against macro values produced by the C preprocessor and the lexed C prototypes",
                 text="The C side is executed (a generated program prints every numeric macro; every prototype is looked up with dlsym in the freshly built shared "
                      "object); each binding file is lexed by a construct-counting lexer that fails closed on anything it does not understand, and every published "
-                     "constant, macro family and wrapped prototype is compared (about 24 000 comparisons), plus version strings of all build/packaging files.",
+                     "constant, macro family and wrapped prototype is compared (about 27 000 comparisons), plus version strings of all build/packaging files; every function the "
+                     "compiler sees declared in the headers must be exported; every IDL constant must be a member of COMMON XRAYLIB (and every member assigned).",
                 note="Non-C bindings are lexed, never compiled (no Fortran/Pascal/Cython/SWIG/IDL toolchain here); struct layouts and reshaped object wrappers are not compared."),
     "C14": dict(level="model_checking", engine="HIST", ref="4/C14",
                 technique="explicit-state BFS over operation histories of the real crystal-collection code (fork per state), to closure, against a dictionary model, repeated under ASan/UBSan",
@@ -165,7 +166,8 @@ CHECKS = {
                 text="A translation unit generated from xraylib++.h instantiates all 148 wrapper entry points (fail-closed lexer); the same driver main() is linked once "
                      "with the C table and once with the C++ table, both receive identical argument columns (C03 product) and their records are compared: same value bits / "
                      "object fields when C succeeds, exception of the mapped type with the C message exactly when C reports an error, equal live-block balance per "
-                     "call (leaks keyed by allocation site), no extra sanitizer report; wrapper objects are used after the C originals were released.",
+                     "call (leaks keyed by allocation site), no extra sanitizer report; wrapper objects - copy-, field- and move-constructed, returned by value, relocated inside a growing "
+                     "vector - are used after the C originals and their sources were released.",
                 note="NULL strings / NULL crystals cannot be expressed through std::string / Struct& overloads and are skipped on the C++ side (counted); "
                      "the bad_alloc path is exercised by an allocation-failure pass (library variant 'fa': only the library's own allocation requests go through a seam; every "
                      "failure point k = 1, 2, ... of up to 3 succeeding tuples per wrapper; evaluated where the C function reports the failure, 217 points per configuration); "
